@@ -300,6 +300,41 @@ def sec_cartpole_step(ck):
             # control: without auto-reset the observation of the raw successor is not always a member
             raw = member_terms(it.o, np.array(flow, dtype=object), out["low"], out["high"])
             ck.control("control.cc.cartpole.raw_successor_not_always_member", pre, conj(raw))
+    # the TERMINAL successor: the state in which an episode ends is a reachable state too, and its observation is what the algorithms bootstrap from.
+    # With the explicit Euler step (x' = x + dt*x_dot, theta' = theta + dt*theta_dot) and speeds below threshold/dt (120 m/s, 21 rad/s at the defaults)
+    # the successor of a non-terminal state lies within twice the termination thresholds -- the margin the declared space has to provide
+    import diffrax
+
+    def h(e, y, t, a, k):
+        with stubs.ode_stub(), stubs.prng_stubs():
+            s0 = CartPoleState(y=y, t=t)
+            s2 = e.transition(s0, a, key=k)
+            d = space_out(e, e.observation(s2, key=k))
+            d["terminal0"] = e.terminal(s0, key=k)
+        return d
+    for cfg in ("default", "symbolic"):
+        cx = Cfg("cartpole", cfg, "real", solver=diffrax.Euler())
+        it = cx.it
+        tr = trace(h, cx.env, jnp.zeros(4), jnp.array(0.0), jnp.array(0), jr.key(0), argnames=["env", "y", "t", "a", "key"], label="CartPole(Euler).transition -> observation (no auto-reset)")
+        if cfg == "default":
+            ck.encoded(tr)
+        S = tr.symbols(it, given=cx.given())
+        out = tr.run(it, S)
+        y = list(S["y"])
+        xt, tt = cx.C["x_threshold"][()], cx.C["theta_threshold_radians"][()]
+        dt0 = np.asarray(cx.given()["env_dt0"], dtype=object).reshape(-1)[0]
+        o = it.o
+        slow = [o.le(o.mul(dt0, y[1]), xt), o.le(o.neg(xt), o.mul(dt0, y[1])), o.le(o.mul(dt0, y[3]), tt), o.le(o.neg(tt), o.mul(dt0, y[3]))]
+        # (state components and thresholds of magnitude <= 64: far from float32 overflow, which the reals do not model)
+        pre = cx.pre + stubs.contracts(it) + inf_axioms() + [S["a"][()] >= 0, S["a"][()] <= 1, neg(out["terminal0"][()])] + slow + real_nice(sym_inputs(S, cx.C))
+        # the two bounded components (cart position, pole angle); the velocity components of the space are unbounded
+        mt = member_terms(it.o, out["obs"], out["low"], out["high"])
+        goal = conj([mt[0], mt[2]])
+        ck.assume_note("cc.cartpole.obs_in_space.terminal_successor: Euler solver, |x_dot|*dt <= x_threshold and |theta_dot|*dt <= theta_threshold (speeds no episode from the documented reset "
+                       "range attains), all state components and thresholds of magnitude <= 64")
+        ck.prove(f"cc.cartpole.obs_in_space.terminal_successor@{cx.tag},solver=Euler,mode=REAL", pre, goal, replay=replay_member(tr, S, it, need_member=False))
+        if cfg == "default":
+            ck.witness("witness.cc.cartpole.successor_beyond_threshold_reachable", pre + [o.gt(np.asarray(out["obs"], dtype=object).reshape(-1)[0], xt)])
     # FP32: a non-terminal state (finite or not) observes inside the space
     def g(e, y, t):
         s = CartPoleState(y=y, t=t)
